@@ -3,6 +3,7 @@ package core
 import (
 	"fmt"
 	"hash/fnv"
+	"os"
 	"reflect"
 	"runtime"
 	"sort"
@@ -20,6 +21,8 @@ import (
 // Task is one goroutine of the system under test (or a harness client),
 // parked at an inserted yield point whenever it is not the one chosen to run.
 type Task struct {
+	burst        int   // yields this task may still pass without parking (it was the only candidate when released)
+	prevPlain    bool  // the statement executed since this task's last yield cannot have woken anybody
 	pendingChild *Task // reserved in BeforeGo, claimed by the child's first yield
 	waitingSince int   // scheduler step at which the task last became schedulable
 	Path         []int // spawn path: the task's identity, independent of arrival order and goroutine ids
@@ -113,6 +116,8 @@ type Sim struct {
 	MaxLive   int
 	Strategy  string
 	Stale     int // reservations that were never claimed
+	Skipped   int // yields a lone runnable task passed without a scheduler round trip
+	NoBurst   bool
 	Adopted   int // goroutines taken over from an earlier simulator of this process (or started outside any)
 	serial    int
 	Jitters   int // times simulated time was let pass although tasks were runnable
@@ -211,7 +216,7 @@ func NewSim(t *Tape) *Sim {
 	simSerial++
 	serial := simSerial
 	everSeenMu.Unlock()
-	return &Sim{serial: serial, T: t, MaxSteps: 1 << 20, MaxTasks: 20000, tasks: map[uint64]*Task{}, rootG: goid(), h: 14695981039346656037, arrivedCh: make(chan struct{}, 1)}
+	return &Sim{serial: serial, NoBurst: os.Getenv("VERIF_NOBURST") != "", T: t, MaxSteps: 1 << 20, MaxTasks: 20000, tasks: map[uint64]*Task{}, rootG: goid(), h: 14695981039346656037, arrivedCh: make(chan struct{}, 1)}
 }
 
 func (s *Sim) logEvent(ev string) {
@@ -245,7 +250,26 @@ func (s *Sim) MachineryError() string { return s.machErr }
 // StopMessage is what OnQuiesce returned when End == EndStopped.
 func (s *Sim) StopMessage() string { return s.stopMsg }
 
-func (s *Sim) hook(site string) {
+func (s *Sim) hook(site string)      { s.hookP(site, false) }
+func (s *Sim) plainHook(site string) { s.hookP(site, true) }
+
+// exitHook: an instrumented function is returning. What its caller executes next
+// (the rest of the calling statement) is not covered by the callee's last yield.
+func (s *Sim) exitHook() {
+	g := goid()
+	if g == s.rootG {
+		return
+	}
+	s.mu.Lock()
+	if t := s.tasks[g]; t != nil {
+		t.prevPlain = false
+	}
+	s.mu.Unlock()
+}
+
+// hookP is the yield point. plain says that the statement following this yield
+// neither calls nor communicates (the instrumenter decides that syntactically).
+func (s *Sim) hookP(site string, plain bool) {
 	g := goid()
 	if g == s.rootG {
 		return
@@ -290,6 +314,18 @@ func (s *Sim) hook(site string) {
 		s.mu.Unlock()
 		runtime.Goexit()
 	}
+	if t.burst > 0 && t.prevPlain {
+		// This task was the only one that could run when it was released, and everything
+		// it has executed since was plain: nobody else can have become runnable, so there
+		// is no decision to take here. Not a scheduler step, not an event.
+		t.burst--
+		t.prevPlain = plain
+		s.Skipped++
+		s.mu.Unlock()
+		return
+	}
+	t.burst = 0
+	t.prevPlain = plain
 	if t.held > 0 && t.pendingChild == nil {
 		// Inside a critical section the task runs on to its unlock: nobody else can
 		// enter anyway, and a task parked with a lock held would make a goroutine that
@@ -738,6 +774,8 @@ func (c cand) site() string {
 // the property stops it, then tears every task down.
 func (s *Sim) Run() {
 	simrt.Hook = s.hook
+	simrt.PlainHook = s.plainHook
+	simrt.ExitHook = s.exitHook
 	simrt.SpawnHook = s.spawnHook
 	simrt.PanicHook = s.panicHook
 	simrt.LockHook = s.lockHook
@@ -746,6 +784,7 @@ func (s *Sim) Run() {
 	simrt.CondSignalHook = s.condSignalHook
 	defer func() {
 		simrt.Hook, simrt.SpawnHook, simrt.PanicHook, simrt.LockHook, simrt.ChanHook, simrt.CondWaitHook, simrt.CondSignalHook = nil, nil, nil, nil, nil, nil, nil
+		simrt.PlainHook, simrt.ExitHook = nil, nil
 	}()
 	s.strat.init(s.T)
 	s.Strategy = s.strat.name()
@@ -917,6 +956,10 @@ func (s *Sim) Run() {
 				s.logEvent("clock+" + d.String())
 			}
 			t.runs++
+			t.burst = 0
+			if len(cands) == 1 && !s.NoBurst {
+				t.burst = 64
+			}
 			s.current = t
 			s.logEvent(t.ID + "@" + t.site)
 			for _, a := range s.actors {
